@@ -145,6 +145,26 @@ def run(ctx, prog):
         return None if mentions(par, r'^params$') else 'stored parameters are not the argument'
     A.require('Jwk::from_params/kty=params.kty()', paths, r_fp, replay=R('[coherence]'))
 
+    # conversion from the json-proof-token key type: the only other place that writes `kty` next to `params` field by field
+    fj = prog.find(r'jwk_ext::<impl at [^>]*>::try_from$')
+    fj = [g for g in fj if 'jsonprooftoken' in ' '.join(t for _, t in g.args) or 'JwkExt' in ' '.join(t for _, t in g.args)]
+    if len(fj) == 1:
+        paths, ex = A.paths(fj[0], inline=r'jwk_ext::<impl at [^>]*>::try_from::\{closure')
+        okj = [p for p in paths if p.kind == 'return' and p.is_ok()]
+
+        def r_jpt(p):
+            j = p.payload()
+            if not (isinstance(j, VAgg) and len(j.fields) == len(JK)):
+                return 'key not built field-wise'
+            kty, par = j.fields[JK.index('kty')], j.fields[JK.index('params')]
+            if not (isinstance(par, VAgg) and par.variant in ('Ec', 'Rsa', 'Okp', 'Oct')):
+                return 'parameters are not a literal family'
+            if not (isinstance(kty, VAgg) and str(kty.variant) == str(par.variant)):
+                return 'declared kty (%s) is not the family of the parameters built (%s): taken from somewhere else' % (term_str(p.term(kty))[:60], par.variant)
+            return None
+        if okj:
+            A.require('Jwk::try_from<JptJwk>/kty-is-the-family-of-the-params-built', okj, r_jpt, replay=R('[coherence]'))
+
     f = prog.one(K + r'set_params$')
     paths, ex = A.paths(f)
 
